@@ -84,6 +84,7 @@ def rle_to_brle(rle, dtype=None):
     out = [0]
     acc = 0
     for value, count in np.reshape(rle, (-1, 2)):
+        count = int(count)
         acc += count
         if value not in (0, 1):
             raise ValueError("Invalid run length encoding for conversion to BRLE")
